@@ -65,6 +65,7 @@ type Case struct {
 	Files   []File
 	Args    []Arg
 	Stdin   *pbt.S // non-nil: data on stdin (used when Args is empty or ["-"])
+	StdinFail string // "" | "dir" | "wronly": stdin is a descriptor whose reads fail (a directory: EISDIR; a write-only file: EBADF) - "fails while being read"
 	Gunzip  bool
 	Recurse bool
 	Readers int
@@ -254,6 +255,11 @@ func gen(t *rapid.T) Case {
 		c.Stdin = &s
 		if rapid.Bool().Draw(t, "dash") {
 			c.Args = []Arg{{Text: "-"}}
+		}
+		if rapid.IntRange(0, 3).Draw(t, "stdinFail") == 0 {
+			c.StdinFail = rapid.SampledFrom([]string{"dir", "wronly"}).Draw(t, "stdinFailKind")
+			empty := pbt.S("")
+			c.Stdin = &empty
 		}
 		return c
 	}
@@ -536,7 +542,20 @@ func check(c Case) error {
 	}
 	cmd := exec.Command(bin, args...)
 	cmd.Dir = root
-	if c.Stdin != nil {
+	if c.Stdin != nil && c.StdinFail != "" {
+		var f *os.File
+		var err error
+		if c.StdinFail == "dir" {
+			f, err = os.Open(root)
+		} else {
+			f, err = os.OpenFile(filepath.Join(root, ".verif-wronly-stdin"), os.O_WRONLY|os.O_CREATE|os.O_TRUNC, 0o600)
+		}
+		if err != nil {
+			return fmt.Errorf("harness: %v", err)
+		}
+		defer f.Close()
+		cmd.Stdin = f
+	} else if c.Stdin != nil {
 		cmd.Stdin = bytes.NewReader([]byte(*c.Stdin))
 	} else {
 		cmd.Stdin = bytes.NewReader(nil)
@@ -564,7 +583,11 @@ func check(c Case) error {
 	expected := map[string]*src{}
 	failing := 0
 	var ms []mention
-	if c.Stdin != nil {
+	if c.Stdin != nil && c.StdinFail != "" {
+		// every read of standard input fails: one failing input, no line
+		expected["<stdin>"] = &src{fails: true, count: 1}
+		failing++
+	} else if c.Stdin != nil {
 		expected["<stdin>"] = &src{lines: model.Lines([]byte(*c.Stdin)), count: 1}
 	} else {
 		ms = expand(&c)
@@ -751,6 +774,7 @@ func check(c Case) error {
 		o.Label(c.Gunzip && gzs >= 1 && plains >= 1, "-z:gzip+plain")
 		o.Label(c.Recurse && depth2, "-R-depth>=2")
 		o.Label(c.Stdin != nil, "stdin")
+		o.Label(c.StdinFail != "", "stdin-read-fails")
 		o.Label(c.Histo, "histo(parse-error-exit-path)")
 		o.Label(parseErrors > 0, "parse-errors")
 		for _, m := range ms {
@@ -813,7 +837,7 @@ func classify(c Case) (bool, []string) {
 func TestInputs(t *testing.T) {
 	pbt.Run(t, pbt.Spec[Case]{
 		Property: "C06", Name: "inputs",
-		Rule:   "the real binary run in a generated directory tree (depth <=4; plain, empty, gzip, multi-member gzip, truncated gzip, gzip with a flipped byte, plain text starting with the gzip magic) with a generated argument list (existing paths possibly repeated, globs incl. ones matching nothing or matching directories, directories with and without -R, missing paths, '-' or no argument with data on stdin) x -z on/off x --readers 1-4 x --batch 1-1000; command = filter -e '{src}:{line}:{0}' or histo with an increment column (parse-error exit path). Oracle: an independent expansion of the arguments over the known tree gives the expected opens; every readable source must be emitted completely, once per mention, with the text Go's gzip (or the raw bytes) yields; a source failing mid-read must yield a prefix of its decodable lines; one '[Log] Error ..' line per failing input; exit status 2 iff a failing input or parse errors, else 1 iff nothing matched, else 0. Non-trivial: >=3 mentions and (a failing input among >=2 healthy ones, or gzip and plain files together under -z, or a -R walk of depth >=2); distinct by case JSON",
+		Rule:   "the real binary run in a generated directory tree (depth <=4; plain, empty, gzip, multi-member gzip, truncated gzip, gzip with a flipped byte, plain text starting with the gzip magic) with a generated argument list (existing paths possibly repeated, globs incl. ones matching nothing or matching directories, directories with and without -R, missing paths, '-' or no argument with data on stdin, or with a stdin whose reads fail: a directory / a write-only descriptor) x -z on/off x --readers 1-4 x --batch 1-1000; command = filter -e '{src}:{line}:{0}' or histo with an increment column (parse-error exit path). Oracle: an independent expansion of the arguments over the known tree gives the expected opens; every readable source must be emitted completely, once per mention, with the text Go's gzip (or the raw bytes) yields; a source failing mid-read must yield a prefix of its decodable lines; one '[Log] Error ..' line per failing input; exit status 2 iff a failing input or parse errors, else 1 iff nothing matched, else 0. Non-trivial: >=3 mentions and (a failing input among >=2 healthy ones, or gzip and plain files together under -z, or a -R walk of depth >=2); distinct by case JSON",
 		Budget: pbt.Budget{Quick: 2400, Thorough: 60000},
 		Gen:    gen, Check: check, Classify: classify,
 	})
